@@ -572,7 +572,7 @@ DenRow(cx, st, i) ==
                        ELSE {}
         IN  IF argcast # {} THEN [d |-> CloseTransparent(cx, argcast \cup ops), f |-> {}]
             ELSE IF consts # {} THEN [d |-> CloseTransparent(cx, consts \cup ops), f |-> {}]
-            ELSE IF CplxConst(rows, i) THEN
+            ELSE IF CplxConst(rows, i) /\ ({m \in cx.consts : IsComplexT(nodes[m].t) \/ nodes[m].v.c = "unsupported"} \cup {m \in ops : pend(m, best(m)) = {}}) # {} THEN
               [d |-> CloseTransparent(cx, {m \in cx.consts : IsComplexT(nodes[m].t) \/ nodes[m].v.c = "unsupported"} \cup {m \in ops : pend(m, best(m)) = {}}), f |-> {}]
             \* (a constant expression is matched as an operation only when that confirms no failure of its parts:
             \*  `-(1.5)` whose literal denotes nothing is a failed constant, not the negation of anything)
